@@ -26,7 +26,7 @@ func init() {
 	})
 	register(&Prop{
 		ID:    "C20",
-		Rules: []*Rule{rGrpcFlow, {Name: "R-CODEC", Doc: rCodec.Doc + " (restricted to the gRPC code wrapper and the gRPC status types)", Run: func(c *core.Ctx) {
+		Rules: []*Rule{rGrpcFlow, scoped(rCodeGetter, "the gRPC code accessor", func(_ *core.Ctx, k string) bool { return strings.Contains(k, "GetGrpcCode") }), {Name: "R-CODEC", Doc: rCodec.Doc + " (restricted to the gRPC code wrapper and the gRPC status types)", Run: func(c *core.Ctx) {
 			runCodec(c, func(cp *codecPair) bool { return strings.Contains(cp.Name, "extgrpc") || strings.Contains(cp.Name, "status.") })
 		}}},
 		Explain: "Decides the value flow through both interceptors (which value is inspected, encoded, returned on each edge) and slot agreement for withGrpcCode. NOT decided: equality with the direct EncodeError/DecodeError path (protobuf Any round trip and the gRPC runtime are outside the analysis).",
@@ -57,7 +57,7 @@ func init() {
 	})
 	register(&Prop{
 		ID:    "C11",
-		Rules: []*Rule{rCodec, rRegType, rErrnoTable, rStackSlot, rStackParse, rTreeRec, rOneParser, rSiblingGuard},
+		Rules: []*Rule{rCodec, rRegType, rErrnoTable, rStackSlot, rStackParse, rTreeRec, rOneParser, rSiblingGuard, rCodeGetter},
 		Explain: "Decides, for every registered type key, that each annotation field has a wire slot that the writer fills from that same field and the reader restores into that same field (payload members, positional safe details, message), that decoders rebuild the key's own type (so flag types recognised by Go type survive), that errno predicates travel in matching pairs, and that the printed-stack slot is re-parsed for the same key set by both stack accessors. " +
 			"NOT decided: equality of re-parsed frames (text parsing), tag values rendered through ValueStr, OS predicates on foreign platforms beyond the pairing.",
 		Trusted: []string{"go/ssa", "gogo/protobuf marshalling of the payload messages"},
